@@ -40,6 +40,17 @@ class Dev(BaseIOPort):
         self.calls.append(('close',))
 
 
+class DirectDev(Dev):
+    """The other documented way of writing a device port ("_receive() is allowed to return a message"): everything that
+    has arrived is taken in, the first message is RETURNED, the rest stays queued in the port."""
+
+    def _receive(self, block=True):
+        Dev._receive(self, block)
+        if self._messages:
+            return self._messages.popleft()
+        return None
+
+
 class FakeSleep:
     """Replacement for mido.ports.sleep: counts calls, runs the next scripted device action, enforces a budget."""
 
@@ -110,3 +121,13 @@ class KeepPort(BaseIOPort):
 
     def _send(self, msg):
         self._messages.append(msg)
+
+
+class DirectWirePort(WirePort):
+    """WirePort whose _receive() RETURNS the first message it has parsed (the other documented device protocol)."""
+
+    def _receive(self, block=True):
+        WirePort._receive(self, block)
+        if self._messages:
+            return self._messages.popleft()
+        return None
